@@ -143,6 +143,29 @@ func Mutate(r *rand.Rand, s string, n int) string {
 	return string(b)
 }
 
+// Respace stretches the layout of an expression: blanks, tabs, newlines and CRLF after opening
+// brackets and separators, before closing brackets and in place of existing blanks (also inside the
+// parenthesised number of flatten(1), parent(2), to_json(0) ...).
+func Respace(r *rand.Rand, s string) string {
+	ws := []string{" ", "\t", "\n", "\r\n", "  ", "\t ", " \n ", "\v", "\f"}
+	var sb strings.Builder
+	for i := 0; i < len(s); i++ {
+		c := s[i]
+		switch {
+		case c == ' ' && r.IntN(2) == 0:
+			sb.WriteString(ws[r.IntN(len(ws))])
+			continue
+		case (c == ')' || c == ']' || c == '}') && r.IntN(3) == 0:
+			sb.WriteString(ws[r.IntN(len(ws))])
+		}
+		sb.WriteByte(c)
+		if (c == '(' || c == '[' || c == '{' || c == ',' || c == ';' || c == ':' || c == '|') && r.IntN(3) == 0 {
+			sb.WriteString(ws[r.IntN(len(ws))])
+		}
+	}
+	return sb.String()
+}
+
 // RandomBytes returns raw random bytes.
 func RandomBytes(r *rand.Rand, max int) string {
 	n := r.IntN(max + 1)
